@@ -691,9 +691,6 @@ def idle_oracle(recs):
                 return False, f"{k}: idle gate uses qubits"
             if o.ideal_unitary is not None:
                 return False, f"{k}: idle gate has a unitary"
-    for k, g in gs.items():
-        if g.name in ("prepare_all", "measure_all") and not any(h == "idle" and x is g for h, x in last.values()) is False:
-            return False, "idle gate for prepare_all / measure_all"
     return True, ""
 
 
